@@ -294,6 +294,21 @@ fn well_formed(a: &Args, out: &mut Out, r: &mut Rng) {
             for d in [1usize, 2] { if off + d < stream.len() { wf_case(&mut out, &msgs, &cut(&stream, &[off + d]), "wf_big_messages_cut_in_next_frame"); } }
         }
     }
+    // ---- (ii'') a message completed out of the decoder's buffer, then a message of >= 128 bytes whose
+    //      two-byte prefix is split between two reads (state left over from the first must not leak) ----
+    for lens in [vec![100usize, 300, 5], vec![3, 130, 200, 1], vec![200, 128, 16384, 2]] {
+        let msgs: Vec<Vec<u8>> = lens.iter().enumerate().map(|(i, l)| pattern(i % 5, *l)).collect();
+        let stream: Vec<u8> = msgs.iter().flat_map(|m| frame(m)).collect();
+        let mut offs = vec![]; let mut o = 0; for m in &msgs { offs.push(o); o += frame(m).len(); }
+        for k in 1..msgs.len() {
+            if msgs[k].len() < 128 { continue; }
+            let split_prefix = offs[k] + 1; // between the two bytes of message k's prefix
+            for c1 in (1..offs[k]).step_by(if offs[k] > 40 { 9 } else { 1 }) {
+                wf_case(&mut out, &msgs, &cut(&stream, &[c1, split_prefix]), "wf_buffered_then_split_prefix");
+                if split_prefix + 5 < stream.len() { wf_case(&mut out, &msgs, &cut(&stream, &[c1, split_prefix, split_prefix + 5]), "wf_buffered_then_split_prefix"); }
+            }
+        }
+    }
     // ---- (iii) random well-formed lists and cuts ------------------------------------------------
     for _ in 0..(if a.thorough { 50_000 } else { 400 }) {
         let nm = r.range(1, 6) as usize;
